@@ -301,5 +301,7 @@ func checkC05(w *World, r *Run) {
 		})
 		r.Check(fromEnd, ruleSib, "normalizeAndValidateRanges counts a suffix from the end", nf.Pos(), "start = objectSize − min(n, objectSize)", "the suffix start is not size − suffix length")
 	}
+	checkRangeOverlapTests(w, r)
+	checkSkipIsRelative(w, r)
 	r.NotCovered("the bytes delivered (the per-part skip/limit arithmetic of createRangeReader and the seekable decryption offsets are value-level); Content-Range text formatting; syntactically invalid Range headers (answered 416 where RFC 7233 suggests ignoring the header)")
 }
